@@ -460,9 +460,18 @@ class Ctx:
         res.add_summary(family, summ)
         return info, summ
 
-    def trace(self, res, family, trace_spec, trace_cfg, n, timeout_s=600, max_rejects=3, extra_args=()):
-        """code -> spec: record n events, validate; on rejection report the session and continue with the rest."""
-        seed = self.seed
+    def trace(self, res, family, trace_spec, trace_cfg, n, timeout_s=600, max_rejects=3, extra_args=(), chunk=None):
+        """code -> spec: record n events, validate; on rejection report the session and continue with the rest.
+        With chunk set, the n events are recorded and validated as independent traces of that size (the trace is a
+        TLC constant: its memory footprint grows with the number of events)."""
+        if chunk and n > chunk:
+            k = (n + chunk - 1) // chunk
+            for i in range(k):
+                self._trace1(res, family, trace_spec, trace_cfg, chunk, timeout_s, max_rejects, extra_args, self.seed * 1000 + i)
+            return
+        self._trace1(res, family, trace_spec, trace_cfg, n, timeout_s, max_rejects, extra_args, self.seed)
+
+    def _trace1(self, res, family, trace_spec, trace_cfg, n, timeout_s, max_rejects, extra_args, seed):
         info, summ, rejected = record_trace_validate(self.scratch, self.harness(), family, trace_spec, trace_cfg, seed, n, timeout_s, extra_args)
         res.add_tlc(info)
         res.add_summary(family + "-trace", summ, count_as_traces=True)
